@@ -38,11 +38,12 @@ func main() {
 	var cfgs []config
 	if r.Quick() {
 		cfgs = []config{
-			{"core-skiplist", small, core, 3, 4, 7, true, true, false},
-			{"wide-art", dbh.Config{Engine: "art", Buckets: 2, VlogFileSize: 120}, wide, 2, 3, 5, false, true, false},
-			{"deep-macro", small, core[:2], 3, 7, 10, false, false, true},
+			// cheapest first: what a configuration leaves of its budget share goes to the later ones
 			// two prefix-related keys: tables with disjoint and overlapping key ranges in L0
 			{"twokey-macro", small, []string{"set:d:a:s", "set:d:ab:s", "del:d:ab"}, 4, 4, 8, false, false, true},
+			{"deep-macro", small, core[:2], 3, 7, 10, false, false, true},
+			{"wide-art", dbh.Config{Engine: "art", Buckets: 2, VlogFileSize: 120}, wide, 2, 3, 5, false, true, false},
+			{"core-skiplist", small, core, 3, 4, 7, true, true, false},
 		}
 	} else {
 		cfgs = []config{
@@ -74,6 +75,7 @@ func main() {
 	}
 	base := r.Scratch()
 	total := r.RunSharded(vr.Workers(), func(sh vr.ShardInfo, p *vr.Partial) {
+		p.Add("workers", 1)
 		for ci, c := range cfgs {
 			params := &kvseq.Params{Cfg: c.Cfg, ClientOps: c.Ops, MaxClient: c.MaxClient, MaxMaint: c.MaxMaint,
 				WithGC: c.GC, WithReopen: c.Reopen, Macro: c.Macro, Dedup: true, RichSig: true, BaseDir: fmt.Sprintf("%s/s%d-c%d", base, sh.Index, ci)}
@@ -88,7 +90,15 @@ func main() {
 				return r.Expired()
 			}
 			seqmc.Explore(seqmc.Config{New: func() seqmc.Instance { return kvseq.New(params) }, MaxDepth: c.Depth,
-				Shard: sh, Expired: expired, Iterative: c.Macro}, sub)
+				Shard: sh, Expired: expired, Iterative: true}, sub)
+			// completion bookkeeping (the parent needs "every worker finished its share of it")
+			if !sub.TimedOut {
+				p.Add("done:"+c.Name, 1)
+			}
+			for d := int64(1); d <= sub.Counters["max_completed_depth"]; d++ {
+				p.Add(fmt.Sprintf("depth_done:%s:%d", c.Name, d), 1)
+			}
+			delete(sub.Counters, "max_completed_depth")
 			// tag violations with the configuration so replays know which one to use
 			for i := range sub.Violations {
 				sub.Violations[i].Replay = fmt.Sprintf(`{"Config":%q,"Path":%s}`, c.Name, sub.Violations[i].Replay)
@@ -102,6 +112,22 @@ func main() {
 	})
 	states := total.Card("states")
 	r.RequireOutcomes(states, 10)
+	// which configurations were enumerated completely; for the iteratively deepened ones the
+	// deepest depth bound that every worker completed
+	completion := map[string]string{}
+	nw := total.Counters["workers"]
+	for _, c := range cfgs {
+		switch {
+		case nw > 0 && total.Counters["done:"+c.Name] == nw:
+			completion[c.Name] = fmt.Sprintf("complete (depth<=%d)", c.Depth)
+		default:
+			d := 0
+			for nw > 0 && total.Counters[fmt.Sprintf("depth_done:%s:%d", c.Name, d+1)] == nw {
+				d++
+			}
+			completion[c.Name] = fmt.Sprintf("budget hit; complete up to depth %d of %d", d, c.Depth)
+		}
+	}
 	r.Finish(vr.Coverage{
 		Level:       "model_checking",
 		Evaluations: total.Counters["executions"],
@@ -113,7 +139,7 @@ func main() {
 		Validated:   total.Counters["executions"],
 		Exhaustive:  !total.TimedOut,
 		Outcomes:    states,
-		Bounds:      map[string]any{"configs": names(cfgs), "quick": r.Quick()},
+		Bounds:      map[string]any{"configs": names(cfgs), "quick": r.Quick(), "completion": completion},
 		Extra: map[string]any{"pruned_by_state_key": total.Counters["pruned"], "noop_cut": total.Counters["cut_noop"],
 			"replayed_steps": total.Counters["replayed_steps"], "max_depth": total.Counters["max_depth"], "ops_applied": opCounts(total)},
 		Assumptions: []string{"background compaction paused and driven by the harness through the real doCompact; flush worker gated",
